@@ -108,11 +108,67 @@ pub fn run(ctx: &Ctx) -> Report {
         st.nontrivial(&(rs, present, signed_mask, host, style, how as u8, carrier));
         st.sample(i, total, || json!({"requirements": case.cfg.reqs, "present": plan.headers.iter().map(|h| h.0.clone()).collect::<Vec<_>>(), "signed": plan.signed, "carrier": format!("{:?}", carrier)}));
     });
+    // (2) every sequence of add_* / remove_* operations on VecSignedHeaderRequirements against a set model
+    let names = ["x-k", "X-K", "x-j"];
+    let n_ops = (3 * 2 * names.len()) as u64; // category x {add, remove} x name
+    let depth: u32 = if thorough { 5 } else { 4 };
+    let n_seq = crate::enumr::seq_count(n_ops, depth);
+    let base2 = total;
+    let st2 = par_sweep(n_seq, |i, st| {
+        use scratchstack_aws_signature::{SignedHeaderRequirements, VecSignedHeaderRequirements};
+        use std::collections::BTreeSet;
+        let seq = crate::enumr::seq_decode(i, n_ops, depth);
+        let mut real = VecSignedHeaderRequirements::default();
+        let mut model: [BTreeSet<String>; 3] = [BTreeSet::new(), BTreeSet::new(), BTreeSet::new()];
+        let mut text: Vec<String> = Vec::new();
+        for op in &seq {
+            let name = names[(*op % names.len() as u64) as usize];
+            let add = (*op / names.len() as u64) % 2 == 0;
+            let cat = (*op / (2 * names.len() as u64)) as usize;
+            match (cat, add) {
+                (0, true) => real.add_always_present(name),
+                (0, false) => real.remove_always_present(name),
+                (1, true) => real.add_if_in_request(name),
+                (1, false) => real.remove_if_in_request(name),
+                (2, true) => real.add_prefix(name),
+                (_, _) => real.remove_prefix(name),
+            }
+            if add {
+                model[cat].insert(name.to_ascii_lowercase());
+            } else {
+                model[cat].remove(&name.to_ascii_lowercase());
+            }
+            text.push(format!("{}_{}({})", if add { "add" } else { "remove" }, ["always_present", "if_in_request", "prefix"][cat], name));
+        }
+        st.evaluations += 1;
+        st.transitions += seq.len() as u64;
+        st.validated += 1;
+        st.nontrivial(&("ops", &seq));
+        let got: [BTreeSet<String>; 3] = [
+            real.always_present().iter().map(|c| c.to_lowercase()).collect(),
+            real.if_in_request().iter().map(|c| c.to_lowercase()).collect(),
+            real.prefixes().iter().map(|c| c.to_lowercase()).collect(),
+        ];
+        st.state(&("reqs-model", &model));
+        st.outcome(if got == model { "builder-ops:agree" } else { "builder-ops:DISAGREE" });
+        if got != model {
+            st.violation(crate::core::Violation {
+                index: base2 + i,
+                what: "requirement-set-differs-from-what-was-declared".into(),
+                case: json!({"operations": text}),
+                expected: format!("{:?}", model),
+                observed: format!("{:?}", got),
+                known: None,
+            });
+        }
+    });
+    let st = st.merge(st2);
+
     Report {
         stats: st,
         rule: format!(
-            "64 requirement sets (always ⊆ {{x-req-a, Content-Type}}, if-in-request ⊆ {{x-opt-c, ETag}}, prefixes ⊆ {{x-p-, X-Amz}}) x {} letter-case styles x {} ways of building the requirements (slice, VecSignedHeaderRequirements::new, add_*, add_* then remove_* of decoys) x every subset of 7 optional request headers (one of them named exactly like the declared prefix x-p-) x every signed subset of the present headers and x-amz-date x {{host, :authority, neither}}; every request is correctly signed over exactly the list it declares, so only the requirement rules can refuse it. Oracle: reference verifier (Ok iff host/:authority signed, every always-header signed, every present conditional header signed, every present header matching a prefix — including x-amz-date and authorization-related ones — signed; otherwise SignatureDoesNotMatch/403 and an empty provider log). states = (requirement set, accepted)",
-            if thorough { 3 } else { 3 }, n_build
+            "64 requirement sets (always ⊆ {{x-req-a, Content-Type}}, if-in-request ⊆ {{x-opt-c, ETag}}, prefixes ⊆ {{x-p-, X-Amz}}) x {} letter-case styles x {} ways of building the requirements (slice, VecSignedHeaderRequirements::new, add_*, add_* then remove_* of decoys) x every subset of 7 optional request headers (one of them named exactly like the declared prefix x-p-) x every signed subset of the present headers and x-amz-date x {{host, :authority, neither}}; every request is correctly signed over exactly the list it declares, so only the requirement rules can refuse it. Oracle: reference verifier (Ok iff host/:authority signed, every always-header signed, every present conditional header signed, every present header matching a prefix — including x-amz-date and authorization-related ones — signed; otherwise SignatureDoesNotMatch/403 and an empty provider log). plus every sequence of up to {} add_*/remove_* operations over three names (two of them case variants of each other) on VecSignedHeaderRequirements, compared with a set model of what was declared. states = (requirement set, accepted)",
+            if thorough { 3 } else { 3 }, n_build, depth
         ),
         bounds: json!({"requirement_sets": 64, "shapes": n_shapes, "cases": total}),
         exhaustive: true,
